@@ -13,6 +13,8 @@ import XpDriver.C08
 import XpDriver.C20
 import XpDriver.C09
 import XpDriver.C05
+import XpDriver.C16
+import XpDriver.C17
 open Lean Xp Xp.Proto
 
 def dispatch (op : String) (j : Json) : R Json :=
@@ -52,6 +54,10 @@ def dispatch (op : String) (j : Json) : R Json :=
   | "align_post" => Ops.alignPost j
   | "align_sobol" => Ops.alignSobol j
   | "align_lime" => Ops.alignLime j
+  | "knn" => Ops.knn j
+  | "gather" => Ops.gatherOp j
+  | "cf" => Ops.cf j
+  | "kleor" => Ops.kleor j
   | _ => throw "bad-op"
 
 def step (line : String) : String :=
